@@ -380,6 +380,16 @@ impl Sched {
     /// Release parked points one at a time following `choices` (index into the sorted enabled set, 0 beyond
     /// its end); returns the branching factor met at each decision. Ends when all tasks are finished.
     pub async fn drive(&self, ntasks: usize, choices: &[usize]) -> std::result::Result<Vec<usize>, String> {
+        let mut step = 0usize;
+        self.drive_with(ntasks, &mut |enabled: &[(usize, u64)]| {
+            let c = choices.get(step).cloned().unwrap_or(0) % enabled.len();
+            step += 1;
+            c
+        }).await
+    }
+
+    /// Release parked points one at a time; `chooser` picks among the enabled points (sorted by task, arrival).
+    pub async fn drive_with(&self, ntasks: usize, chooser: &mut (dyn FnMut(&[(usize, u64)]) -> usize + Send)) -> std::result::Result<Vec<usize>, String> {
         let mut branching = Vec::new();
         loop {
             if !self.quiesce(ntasks).await {
@@ -394,7 +404,7 @@ impl Sched {
                 if enabled.is_empty() {
                     return Err("no task parked and not all finished".into());
                 }
-                let c = choices.get(branching.len()).cloned().unwrap_or(0) % enabled.len();
+                let c = chooser(&enabled) % enabled.len();
                 branching.push(enabled.len());
                 let id = enabled[c];
                 let (label, tx) = g.parked.remove(&id).unwrap();
@@ -403,6 +413,33 @@ impl Sched {
             };
             let _ = pick.send(());
         }
+    }
+
+    /// Context-bounded schedule of two tasks: task `first` runs `n1` of its points, then the other task runs
+    /// `n2` of its points (usize::MAX = to completion), then `first` runs to completion, then the rest.
+    /// Returns how many points each phase really released (a phase ends early when its task has nothing parked).
+    pub async fn drive_switch(&self, first: usize, n1: usize, n2: usize) -> std::result::Result<(usize, usize), String> {
+        let other = 1 - first;
+        let mut c1 = 0usize;
+        let mut c2 = 0usize;
+        let mut phase = 0u8;
+        let r = self.drive_with(2, &mut |enabled: &[(usize, u64)]| {
+            let of = |t: usize| enabled.iter().position(|e| e.0 == t);
+            loop {
+                match phase {
+                    0 => {
+                        if c1 < n1 { if let Some(i) = of(first) { c1 += 1; return i; } }
+                        phase = 1;
+                    }
+                    1 => {
+                        if c2 < n2 { if let Some(i) = of(other) { c2 += 1; return i; } }
+                        phase = 2;
+                    }
+                    _ => return of(first).unwrap_or(0),
+                }
+            }
+        }).await;
+        r.map(|_| (c1, c2))
     }
 }
 
